@@ -460,6 +460,15 @@ func (s *Solver) define(t *Term) {
 				}
 				s.pendingAx = append(s.pendingAx, s.ts.Implies(s.ts.EqRaw(t, u), s.ts.And(conj...)))
 			}
+			// acyclicity (no hash fixed points / cycles): a hash is "younger" than
+			// every 256-bit piece of its own pre-image
+			if fam != "SIG_" && len(t.Args) == 1 {
+				for _, seg := range segs(t.Args[0]) {
+					if seg.W == 256 && !seg.IsConst() {
+						s.pendingAx = append(s.pendingAx, s.ts.ULt(s.ts.UF("Hrank", 32, seg), s.ts.UF("Hrank", 32, t)))
+					}
+				}
+			}
 			s.injApps = append(s.injApps, t)
 			s.scopes[len(s.scopes)-1].apps++
 		}
